@@ -51,6 +51,17 @@ def gen_case(rng):
         names.append(n)
         info[n] = {"type": typ, "variability": var_ or None, "start": start, "value": value}
         tags.add("variability:" + (var_ or "continuous"))
+    # declaration equations of non-parameter variables (Real yb = 2 * x): they become flat equations
+    nb = 0
+    for nm in [n_ for n_ in names if info[n_]["type"] == "Real" and info[n_]["variability"] is None][:2]:
+        if rng.random() < 0.35:
+            bn = "yb%d" % nb
+            nb += 1
+            rhs_txt = "%s * %s" % (rng.randint(2, 9), nm) if rng.random() < 0.6 else str(rng.randint(1, 9))
+            decls.append("  Real %s = %s;" % (bn, rhs_txt))
+            names.append(bn)
+            info[bn] = {"type": "Real", "variability": None, "start": None, "value": None}
+            tags.add("declaration-equation-of-a-variable")
     # Boolean variables and parameters, with both literal values
     for j in range(rng.randint(0, 2)):
         n = "b%d" % j
